@@ -39,6 +39,10 @@ def correspond(ctx):
         step = rng.choice([None, 1, 1, 2, 3, 4])
         nb = rng.choice([None, None, rng.randint(1, 8)])
         st = 1 if step is None else step
+        if rng.random() < 0.25:
+            # wide array with an explicit number of points: the largest requested lag is rows-1 (or the last multiple of step below it)
+            R = rng.randint(2, 9); nb = (R - 1) // st + 1; C = st * (nb + 1) + rng.randint(0, 4)
+            ph = npr.normal(size=(R, C)); kind = "wide, lags up to rows-1"
         nbv = C / 4 if nb is None else nb
         xm = int(min(nbv, C / st - 1))
         if xm < 0 or (xm - 1) * st >= R:
@@ -104,6 +108,14 @@ def property_checks(inp):
         # sf must not depend on what was computed before (no stale memory at lag 0)
         junk = numpy.full(xm, 7.0); del junk
         A(("sf[0] == 0", abs(float(sc.calculate_structure_function(ph, step=step)[0])), 0.0))
+    # explicit number of points on a wide array: every lag up to rows-1 (one overlapping pair of rows) is requested and defined
+    R2 = inp.get("R2", 5); jmax = (R2 - 1) // step; nb = jmax + 1
+    C2 = step * (nb + 1) + inp.get("Cextra", 2)
+    wide = npr.normal(size=(R2, C2))
+    sfw = sc.calculate_structure_function(wide, nbOfPoint=nb, step=step)
+    wantw = numpy.array([0.0] + [numpy.mean((wide[:-j * step] - wide[j * step:]) ** 2) for j in range(1, nb)])
+    A(("sf with an explicit number of points = mean squared lag difference at every lag up to rows-1 (step %d)" % step,
+       float(numpy.max(numpy.abs(sfw - wantw))) if sfw.shape == wantw.shape else float("inf"), 1e-12))
     # temporal power spectrum
     nfr, nc = inp["nfr"], inp["nc"]; lead = tuple(inp["lead"])
     d = npr.normal(size=lead + (nfr, nc))
@@ -139,7 +151,7 @@ def property_checks(inp):
 def gen_input(rng):
     return {"R": rng.randint(6, 40), "C": rng.randint(8, 40), "step": rng.randint(1, 4), "a": rng.uniform(-3, 3), "s": rng.uniform(0.3, 4),
             "nfr": rng.randint(4, 64), "nc": rng.randint(1, 8), "lead": list(rng.choice([(), (2,), (2, 3)])), "kbin": rng.randint(0, 30),
-            "rate": rng.loguniform(1, 2000), "data_seed": rng.getrandbits(32)}
+            "rate": rng.loguniform(1, 2000), "R2": rng.randint(2, 12), "Cextra": rng.randint(0, 6), "data_seed": rng.getrandbits(32)}
 
 
 def falsify(ctx, deep=False):
